@@ -44,6 +44,18 @@ impl Serializer {
         }
     }
 
+    /// verification hook: like new(), but with caller-chosen salts instead of
+    /// OS randomness
+    #[cfg(feature = "verif-hooks")]
+    pub fn new_with_salt(sentinel: Option<NodePtr>, salt: [u8; 8], hasher_seed: u64) -> Self {
+        Self {
+            read_op_stack: vec![ReadOp::Parse],
+            write_stack: vec![],
+            tree_cache: TreeCache::new_with_salt(sentinel, salt, hasher_seed),
+            output: Cursor::new(vec![]),
+        }
+    }
+
     /// Resume serializing from the most recent sentinel node (or from the
     /// beginning if this is the first call. Returns true when we're done
     /// serializing. i.e. no sentinel token was encountered. Once this function
